@@ -25,7 +25,10 @@ LEVEL_NOTE = ("Trusted: vf.refs.addrmodel (self-tested), twisted.internet.task.C
               "The instant of expiry itself is never judged (the generator keeps every probe strictly before or after it).")
 RULE = ("a case = an epoch, 1-4 names, an optional initial address-mappings/all listing (TorState route) and 2-16 steps, "
         "each an ADDRMAP line (local-time / EXPIRES= / CACHED= / NEVER / <error> forms, expiry offset -1 day..+30 days) or a "
-        "clock advance (seconds to days, to just before / just after the next expiry, whole-second or fractional clock). "
+        "clock advance (seconds to days, to just before / just after the next expiry, whole-second or fractional clock), "
+        "or (cases without an acting listener) a burst of 2-4 lines delivered in one reactor turn, often starting with an "
+        "already-expired mapping that the next line supersedes before any timer ran. Lines also come in the positional "
+        "form name addr \"local\" \"utc\" and, in ~15 % of the cases, from a Tor whose local zone is +-N h or a half/quarter-hour zone. "
         "Every listener double also probes the map from INSIDE its callbacks; in half of the cases it additionally acts "
         "there according to a per-name plan: re-resolve the name through AddrMap.update() or raise an exception. "
         "Distinct = hash of the whole case. Non-trivial = at least one name was live at a judged step.")
@@ -43,6 +46,10 @@ ASSUMPTIONS = [
     "may surface from clock.advance()/AddrMap.update() or be logged - afterwards only the map content and the event "
     "counts are judged: the expired mapping must not be findable, a re-resolved name must resolve to the new mapping, "
     "cause exactly one further 'added' and expire at its own time",
+    "the positional form name addr \"local\" \"utc\" is not in today's control-spec; txtorcon's parser documents and its "
+    "own test pins it (4th field = UTC expiry), so it is generated, with its own class suffix +positional-utc-form",
+    "within one reactor turn a mapping that is already expired on arrival and is superseded by a later line for the same "
+    "name may go unannounced (no added/expired for it); if it is the last line for the name it is judged as usual",
     "an <error> event for a live name may or may not be announced as 'expired' (either accepted); "
     "a new name whose mapping is already expired on arrival may be announced added+expired or not at all",
 ]
@@ -61,11 +68,15 @@ FLOORS = {
     "quick": {"evaluations": 2500, "lookups_compared": 35000, "listener_calls_seen": 4000,
               "expiries_in_model": 3000, "state_route_events": 300, "bootstrap_mappings": 100,
               "in_callback_probes": 15000, "reresolves_in_callback": 600, "listener_raises": 300,
+              "bursts_fed": 1200, "events_in_bursts": 3500, "positional_form_lines": 1500,
+              "positional_form_lines_tor_in_other_zone": 300,
               "reach:txtorcon.addrmap:Addr.update": 5000, "reach:txtorcon.addrmap:Addr._expire": 1500,
               "reach:txtorcon.torstate:TorState._addr_map": 300},
     "thorough": {"evaluations": 80000, "lookups_compared": 1200000, "listener_calls_seen": 250000,
                  "expiries_in_model": 100000, "state_route_events": 15000, "bootstrap_mappings": 4000,
                  "in_callback_probes": 500000, "reresolves_in_callback": 20000, "listener_raises": 10000,
+                 "bursts_fed": 45000, "events_in_bursts": 120000, "positional_form_lines": 50000,
+                 "positional_form_lines_tor_in_other_zone": 10000,
                  "reach:txtorcon.addrmap:Addr.update": 250000, "reach:txtorcon.addrmap:Addr._expire": 100000,
                  "reach:txtorcon.torstate:TorState._addr_map": 15000},
 }
@@ -78,7 +89,7 @@ ADDRS = ["192.0.2.1", "192.0.2.2", "198.51.100.77", "10.0.0.1", "[2001:db8::1]",
          "cname.example.net", "127.192.0.10"]
 DAY = 86400
 FEATURES = ("days", "never_after_finite", "shorten", "error", "fractional", "past")
-TOR_TZ = [7200, -18000, 19800, 3600, -3600, 43200]     # Tor's zone differs from the controller's (UTC)
+TOR_TZ = [7200, -18000, 19800, 3600, -3600, 43200, -12600, 20700, 34200, -39600]     # Tor's zone differs from the controller's (UTC)
 
 
 # ---------------------------------------------------------------------------
@@ -97,9 +108,9 @@ def gen_theme(rnd):
     return th
 
 
-def gen_event(rnd, model, names, addrs, theme, boot=False):
+def gen_event(rnd, model, names, addrs, theme, boot=False, force_name=None):
     for _ in range(20):
-        name = rnd.choice(names)
+        name = force_name or rnd.choice(names)
         cur = model.names.get(name)
         live = model.lookup(name) is not None
         live_finite = live and cur.exp is not None
@@ -143,11 +154,11 @@ def gen_event(rnd, model, names, addrs, theme, boot=False):
                 if exp - int(model.now) >= DAY and not theme["days"]:
                     continue
             ev["exp"] = exp
-            ev["form"] = "local" if boot else rnd.choice(["local", "expires", "cached", "cached"])
+            ev["form"] = "local" if boot else rnd.choice(["local", "expires", "cached", "cached", "positional"])
             ev["cached"] = rnd.choice(["YES", "NO"])
             if theme["tzoff"] and not boot:
                 # Tor prints its own local time first; only EXPIRES= (UTC) is meaningful to us
-                ev["form"] = rnd.choice(["expires", "cached"])
+                ev["form"] = rnd.choice(["expires", "cached", "positional"])
                 ev["tzoff"] = theme["tzoff"]
         if ev["form"] in ("cached", "never-cached") and rnd.random() < 0.2:
             ev["streamid"] = rnd.randint(1, 9999)
@@ -283,6 +294,25 @@ def gen_case(rnd, route):
                 sim_expired(model, plan, ev["name"])
     nsteps = rnd.choice([2, 3, 4, 5, 6, 8, 10, 12, rnd.randint(2, 16)])
     for _ in range(nsteps):
+        if case["actor"] is None and rnd.random() < 0.18:
+            # several events in one reactor turn (one TCP segment): no timer runs between them
+            focus = rnd.choice(names)
+            evs = []
+            for j in range(rnd.choice([2, 2, 3, 4])):
+                if rnd.random() < (0.6 if j == 0 else 0.25):
+                    cur = model.names.get(focus)
+                    ev = {"name": focus, "exp": int(model.now) - rnd.choice([1, 1, 5, 60, 3600, DAY]),
+                          "addr": cur.addr if (cur is not None and cur.addr and rnd.random() < 0.5) else rnd.choice(addrs),
+                          "form": rnd.choice(["local", "expires", "cached"]), "cached": "NO"}
+                else:
+                    ev = gen_event(rnd, model, names, addrs, theme, force_name=focus if rnd.random() < 0.75 else None)
+                if ev is None:
+                    continue
+                model.event(ev)
+                evs.append(ev)
+            if evs:
+                case["steps"].append(["burst", evs])
+            continue
         if rnd.random() < 0.58:
             ev = gen_event(rnd, model, names, addrs, theme)
             if ev is None:
@@ -360,7 +390,7 @@ class Listener(object):
         name = getattr(addr, "name", None)
         self.log.append(("added", name, str(getattr(addr, "ip", None))))
         c = self.ctx
-        if c is None or name not in c["model"].names:
+        if c is None or name not in c["model"].names or not c["probe"]:
             return
         want = c["model"].lookup(name)
         if want is None:
@@ -384,7 +414,7 @@ class Listener(object):
             return
         model = c["model"]
         n = model.names[name]
-        if model.lookup(name) is None:
+        if model.lookup(name) is None and c["probe"]:
             keys = [(name, "name")] + [(a, "latest-address" if a == n.addr else "earlier-address")
                                        for a in n.addresses]
             for key, kcls in keys:
@@ -476,10 +506,17 @@ def run_case(case, rec):
             return model.history_class(exc.args[0])
         return "general"
 
+    def note_form(ev):
+        if ev.get("form") == "positional" and ev["addr"] != M.ERROR and ev["exp"] is not None:
+            lst.tags.setdefault(ev["name"], set()).add("positional-utc-form")
+            rec.count("positional_form_lines")
+            if ev.get("tzoff"):
+                rec.count("positional_form_lines_tor_in_other_zone")
+
     link = tor = None
     holder = {}
     lst.ctx = {"model": model, "am": lambda: holder["am"], "epoch": epoch, "plan": ActorPlan(case.get("actor")),
-               "rec": rec, "V": V, "cause": "bootstrap"}
+               "rec": rec, "V": V, "cause": "bootstrap", "probe": True}
     if case.get("actor"):
         rec.count("cases_with_acting_listener")
     try:
@@ -532,6 +569,7 @@ def run_case(case, rec):
                 line = M.render(arg, epoch)
                 lst.ctx["cause"] = "error-event" if arg["addr"] == M.ERROR else "event"
                 trans = model.event(arg)
+                note_form(arg)
                 rec.count("events_fed")
                 rec.seen("line_forms", "%s%s%s%s" % (arg["form"], "+error" if arg["addr"] == M.ERROR else "",
                                                       "+streamid" if arg.get("streamid") is not None else "",
@@ -561,6 +599,45 @@ def run_case(case, rec):
                           {"step": idx, "line": line, "logged": errs, "exceptions": link.exceptions})
                         break
                 dt = 0
+            elif kind == "burst":
+                lst.ctx["cause"] = "event"
+                # on the TorState route the whole burst is handed to the protocol at once, i.e. the
+                # model runs ahead of the callbacks: no in-callback comparison during delivery
+                lst.ctx["probe"] = case["route"] == "addrmap"
+                trans = []
+                failed = False
+                for ev in arg:
+                    trans.append(model.event(ev))
+                    note_form(ev)
+                    rec.count("events_fed")
+                    rec.count("events_in_bursts")
+                    line = M.render(ev, epoch)
+                    if case["route"] == "addrmap":
+                        try:
+                            am.update(line)
+                        except ListenerBoom:
+                            pass
+                        except Exception as e:
+                            V("update-raised", model.history_class(ev["name"]), {"step": idx, "line": line, "exc": repr(e)})
+                            failed = True
+                            break
+                    elif not tor.emit("ADDRMAP", line):
+                        V("not-subscribed", "ADDRMAP", {"subscribed": sorted(tor.subscribed)})
+                        failed = True
+                        break
+                if not failed and case["route"] != "addrmap":
+                    link.pump()
+                    rec.count("state_route_events", len(arg))
+                    errs = real_errors(logcap.take())
+                    if errs or link.exceptions:
+                        V("update-raised", model.history_class(arg[-1]["name"]),
+                          {"step": idx, "burst": [M.render(e, epoch) for e in arg], "logged": errs, "exceptions": link.exceptions})
+                        failed = True
+                if failed:
+                    break
+                rec.count("bursts_fed")
+                lst.ctx["probe"] = True
+                dt = 0
             else:
                 dt = arg
                 lst.ctx["cause"] = "clock-advance"
@@ -580,6 +657,37 @@ def run_case(case, rec):
         logcap.take()
     rec.case(case, nontrivial=state["nontrivial"])
     return reported
+
+
+def burst_acceptable(evs, was, now):
+    """acceptable listener sequences for one name over several events of one reactor turn.
+    Each event has the single-event semantics, except that a mapping which is already expired
+    on arrival and is superseded by a later event of the same turn may go unannounced
+    (the reactor never ran between them: nothing observable happened)."""
+    out = []
+
+    def go(i, live, seq):
+        if i == len(evs):
+            if seq not in out:
+                out.append(seq)
+            return
+        e = evs[i]
+        if e["addr"] == M.ERROR:
+            go(i + 1, False, seq)
+            if live:
+                go(i + 1, False, seq + ["expired"])
+        elif e["exp"] is None or e["exp"] > now:
+            go(i + 1, True, seq if live else seq + ["added"])
+        else:
+            if live:
+                go(i + 1, False, seq + ["expired"])
+            else:
+                go(i + 1, False, seq)
+                go(i + 1, False, seq + ["added", "expired"])
+            if i < len(evs) - 1:
+                go(i + 1, live, seq)
+    go(0, was, [])
+    return out
 
 
 def judge(case, model, am, lst, mark, step, rec, V, state, names, gone=(), trans=None):
@@ -662,6 +770,12 @@ def judge(case, model, am, lst, mark, step, rec, V, state, names, gone=(), trans
         else:
             acc = [[], ["expired"]] if err else [["expired"]]
         expect[arg["name"]] = acc
+    elif kind == "burst":
+        by = {}
+        for ev, tr in zip(arg, trans):
+            by.setdefault(ev["name"], [tr[0], []])[1].append(ev)
+        for nm, (was0, evs) in by.items():
+            expect[nm] = burst_acceptable(evs, was0, model.now)
     else:
         for name in gone:
             expect[name] = [["expired"]]
